@@ -52,9 +52,9 @@ IN_CODE = {g: {int(getattr(s, RECEIVED_KIND[g]).MESSAGE_ID) & (256 ** IDW[g] - 1
 BOUNDS = {
     # N: max number of body bytes (code + payload) of a fully symbolic frame per connection kind; Z: max decompressed payload
     'quick': {'N': {'server': 12, 'peer': 14, 'peer_init': 14, 'distributed': 14}, 'Z': 22, 'T': 16, 'any': 6, 'init_any': 8,
-              'splits': False},
+              'splits': False, 'long': [120, 125, 129, 140], 'long_k': 3},
     'thorough': {'N': {'server': 20, 'peer': 24, 'peer_init': 22, 'distributed': 24}, 'Z': 32, 'T': 22, 'any': 10, 'init_any': 15,
-                 'splits': True},
+                 'splits': True, 'long': list(range(118, 141)) + [252, 260, 300], 'long_k': 8},
 }
 
 
@@ -91,9 +91,20 @@ def resolve(name):
     return getattr(getattr(M, a), b)
 
 
-def build(g, name, tag, text_len=2, fixed=None):
+def filled_text(g, name, k, filler):
+    """text of k symbolic bytes (any well-formed UTF-8 of that length) followed by `filler` concrete ASCII bytes"""
+    head = g.text(name, k)
+    tail = 'abcdefghijklmnopqrstuvwxyz0123456789'
+    tail = (tail * (filler // len(tail) + 1))[:filler]
+    if isinstance(head, SStr):
+        return SStr(SBytes(list(head.raw.b) + list(tail.encode())), 'utf-8')
+    return head + tail
+
+
+def build(g, name, tag, text_len=2, fixed=None, long=None):
     """a valid message of pinned class `name` with fresh symbolic leaves: (expected object, plain frame terms).
-    The bytes come from the pinned layout through the reference encoder above, not from the code under test."""
+    The bytes come from the pinned layout through the reference encoder above, not from the code under test.
+    long = {field: (symbolic bytes, concrete filler bytes)} makes that text long."""
     L = MESSAGES[name]
     kw, payload = {}, []
     for f in L['fields']:
@@ -106,6 +117,8 @@ def build(g, name, tag, text_len=2, fixed=None):
             v = g.word(f'{tag}.{n}', 8 * INTS[f['type']][0], INTS[f['type']][1])
         elif f['type'] == 'boolean':
             v = g.boolean(f'{tag}.{n}')
+        elif long and n in long:
+            v = filled_text(g, f'{tag}.{n}', *long[n])
         else:
             v = g.text(f'{tag}.{n}', text_len)
         kw[n] = v
@@ -591,7 +604,7 @@ def check_delivered(c, got, want, verdict, label, sig):
 # H2: framing with symbolic length prefixes through the real receive_message/_read/_read_message (clause c)
 # ------------------------------------------------------------------------------------------------------------------
 
-def h_frames(c, obf, T, seg):
+def h_frames(c, obf, T, seg, first=None):
     """a stream of T fully symbolic bytes, then EOF.  receive_message() is called until it reports the end; every frame
     it returns must be exactly the next (header + prefix-many) bytes of the stream per the reference framing."""
     sig = ['obfuscated' if obf else 'plain']
@@ -599,6 +612,9 @@ def h_frames(c, obf, T, seg):
     loop = VLoop()
     g = codec.Gen(c)
     stream = terms(g.raw('stream', T))
+    if first is not None:
+        # long first frame: its (symbolic, possibly obfuscated) prefix is constrained to announce exactly `first` bytes
+        assume(c, v_eq(le_value(ref_plain(stream[:hdr], obf)[:4]), first))
     if seg == 'all':
         cuts = []
     elif seg == 'bytes':
@@ -789,6 +805,67 @@ def h_stall(c, kind, end):
         loop.cleanup()
 
 
+def text_equal(c, got, exp):
+    if c.symbolic:
+        for x, y in ((got, exp), (exp, got)):
+            if isinstance(x, SStr):
+                return x.eq_formula(y)
+    return got == exp
+
+
+def h_long(c, where, n, k):
+    """valid frames LONGER than the 124/128-byte key cycle on an obfuscated connection (n = body bytes, code included): the first k
+    bytes of the long text are symbolic, the rest is concrete filler, the key of every frame is symbolic.
+    where='message': PeerInit, LONG PeerPlaceInQueueReply, short message - on a connection accepted on the obfuscated port;
+    where='init': LONG PeerInit (user name), short message."""
+    sig = [where, 'over128' if n > 128 else 'over124' if n > 124 else 'upto124']
+    loop = VLoop()
+    g = codec.Gen(c)
+    try:
+        with c02env.streams(c.symbolic) as st, codec.installed(c.symbolic):
+            env = Env(c, loop, st)
+            env.start()
+            if where == 'init':
+                init, init_plain = build(g, 'PeerInit.Request', 'init', fixed={'typ': 'P'}, long={'username': (k, n - 14 - k)})
+                expected = []
+            else:
+                init, init_plain = build(g, 'PeerInit.Request', 'init', fixed={'typ': 'P'})
+                v_long, long_plain = build(g, 'PeerPlaceInQueueReply.Request', 'long', long={'filename': (k, n - 12 - k)})
+                expected = [v_long]
+            v2, v2_plain = build(g, VALID['peer'][1], 'v2')
+            expected.append(v2)
+            plains = [init_plain] + ([long_plain] if where != 'init' else []) + [v2_plain]
+            if len(plains[0 if where == 'init' else 1]) != 4 + n:
+                raise symex.HarnessError('long frame has the wrong size')
+            g.commit()
+            wire = to_wire(g, [(p, True) for p in plains])
+            seg = c.pick(['all', 'mid', 'straddle'], 'segmentation')
+            c.note('segmentation', seg)
+            conn, reader, writer, _ = env.incoming(True)
+            stream = [t for f in wire for t in f]
+            with c02env.monitor(len(stream)):
+                try:
+                    with guard(c, seconds=WATCHDOG_STREAM_S):
+                        env.feed(reader, cut(stream, segmentations(wire, seg)))
+                except NONTERMINATION as e:
+                    c.check(False, 'parse_terminates', sig=sig, info=str(e))
+                    return
+            c.reach('long_frame_fed')
+            ok_init = conn in env.inits and conn.state == ConnectionState.CONNECTED and conn in env.net.peer_connections
+            c.check(codec._and(ok_init, text_equal(c, conn.username, init.username) if ok_init else False), 'valid_init_establishes', sig=sig,
+                    info={'state': conn.state.name, 'initialised': conn in env.inits})
+            got = env.delivered(conn)
+            ok = codec._and(*[msg_equal(c, a, b) for a, b in zip(got, expected)]) if len(got) == len(expected) else False
+            c.check(ok, 'valid_frames_delivered_once_in_order', sig=sig,
+                    info={'delivered': [type(m).__qualname__ for m in got], 'expected': [type(m).__qualname__ for m in expected]})
+            c.check(env.alive(conn) == (conn.state != ConnectionState.CLOSED), 'reader_alive_iff_connection_open', sig=sig,
+                    info={'alive': env.alive(conn), 'state': conn.state.name})
+            c.check(not loop.errors and not env.dead_tasks(), 'no_task_died', sig=sig, info=repr(loop.errors[:1] + env.dead_tasks()[:1]))
+            c.check(reader.consumed == len(stream), 'stream_position_at_end', sig=sig, info={'consumed': reader.consumed, 'fed': len(stream)})
+    finally:
+        loop.cleanup()
+
+
 # ------------------------------------------------------------------------------------------------------------------
 # H4: bad first frame on an accepted connection (clause e) - through ListeningConnection.accept
 # ------------------------------------------------------------------------------------------------------------------
@@ -881,6 +958,8 @@ def _bounds_text(tier):
                                     + ('every single split point' if b['splits'] else 'two split points'),
             'arbitrary bad frame in the reader scenario': f"{b['any']} body bytes ({b['init_any']} as first frame of an accepted connection)",
             'text leaves of the valid frames': '2 bytes each (all well-formed UTF-8 of that length)',
+            'long valid frames on obfuscated connections (body bytes incl. code)': f"{b['long']}; first {b['long_k']} text bytes symbolic, "
+                                                                                  'rest concrete filler, every key symbolic; as a message and as PeerInit',
             'frames per reader scenario': '[PeerInit] valid, bad, valid (+EOF); stall scenario: [PeerInit] valid, incomplete (0..3 body bytes sent)'}
 
 
@@ -903,7 +982,8 @@ META = {
                    'Network + reader loop: valid, bad, valid (12 kinds of bad with symbolic content) on 5 connection kinds x 5 segmentations: '
                    'exactly the valid messages reach the event bus once and in order, reader task alive iff connection not CLOSED, no task '
                    'dies, a raising callback/listener does not stop the reader; a frame whose symbolic prefix announces more than is sent is '
-                   'never delivered and the read time-out / EOF ends reader and connection together. (e) Real ListeningConnection.accept + on_peer_accepted: a bad '
+                   'never delivered and the read time-out / EOF ends reader and connection together; valid frames longer than the 124/128-byte '
+                   'key cycle on obfuscated connections (as message and as PeerInit) are delivered once, in order, with equal content. (e) Real ListeningConnection.accept + on_peer_accepted: a bad '
                    'first frame closes that connection (and it stays closed) while another peer connection and the server connection stay '
                    'up and keep delivering.',
     'functions': [DataConnection.decode_message_data, ServerConnection.deserialize_message, PeerConnection.deserialize_message,
@@ -991,6 +1071,12 @@ def jobs(tier):
             out.append({'harness': 'frames', 'fn': h_frames, 'params': {'obf': obf, 'T': T, 'seg': seg}, 'weight': 30 if not obf else 60,
                         'requires': ['framed', 'frame_returned', 'incomplete_tail', 'frame_is_header_plus_prefix_bytes',
                                      'incomplete_frame_not_delivered', 'stream_end_closes_connection', 'framing_terminates'], **lim})
+        for first in b['long'][1:3] if not b['splits'] else b['long'][::4]:
+            T = (8 if obf else 4) + first + 6
+            for seg in ('all', str(T // 2)):
+                out.append({'harness': 'frames', 'fn': h_frames, 'params': {'obf': obf, 'T': T, 'seg': seg, 'first': first}, 'weight': 40,
+                            'requires': ['framed', 'frame_returned', 'frame_is_header_plus_prefix_bytes', 'stream_end_closes_connection',
+                                         'framing_terminates'], **lim})
     # H3
     for kind in KINDS:
         for bad in BAD_KINDS:
@@ -1005,6 +1091,11 @@ def jobs(tier):
             out.append({'harness': 'stall', 'fn': h_stall, 'params': {'kind': kind, 'end': end}, 'weight': 60 * (2 if 'obf' in kind else 1),
                         'requires': ['stalled', 'incomplete_frame_not_delivered', 'reader_alive_iff_connection_open',
                                      'stream_end_closes_connection', 'no_task_died'], **lim})
+    for where in ('message', 'init'):
+        for n in b['long']:
+            out.append({'harness': 'long', 'fn': h_long, 'params': {'where': where, 'n': n, 'k': b['long_k']}, 'weight': 150,
+                        'requires': ['long_frame_fed', 'valid_init_establishes', 'valid_frames_delivered_once_in_order',
+                                     'reader_alive_iff_connection_open', 'no_task_died'], **lim})
     # H4
     for obf_port in (False, True):
         for bad in INIT_BAD:
@@ -1035,22 +1126,24 @@ def _parse_paths(group, n):
 
 def prelude(tier):
     notes = codec.validate(deep=False)
-    # reference obfuscator/keystream against the real obfuscation module on concrete bytes
-    import random
-    rng = random.Random(2)
-    for ln in list(range(0, 12)) + [127, 128, 129, 133, 260]:
-        key = bytes(rng.randrange(256) for _ in range(4))
-        data = bytes(rng.randrange(256) for _ in range(ln))
-        if bytes(ref_obfuscate(list(data), list(key))) != O.encode(data, key) or bytes(ref_plain(list(key + data), True)) != O.decode(key + data):
-            raise symex.HarnessError(f'reference keystream disagrees with aioslsk.protocol.obfuscation at length {ln}')
-    notes.append('reference keystream (pinned definition) == obfuscation.encode/decode on 17 concrete key/length cases')
+    # the independent keystream reference against PINNED vectors (never against the code under test: when the code disagrees with
+    # the reference that is for the harnesses to report, with a replay)
+    pinned = json.load(open(os.path.join(VERIF, 'spec', 'c02_obfuscation_vectors.json')))['vectors']
+    for v in pinned:
+        key, data, wire = bytes.fromhex(v['key']), bytes.fromhex(v['data']), bytes.fromhex(v['wire'])
+        if bytes(ref_obfuscate(list(data), list(key))) != wire or bytes(ref_plain(list(wire), True)) != data:
+            raise symex.HarnessError(f'reference keystream disagrees with the pinned vector of length {len(data)}')
+    notes.append(f'reference keystream (pinned definition) reproduces {len(pinned)} pinned vectors of spec/c02_obfuscation_vectors.json '
+                 f'(lengths 0..12, 121..133, 140, 255..261, 300)')
     # FakeReader against asyncio.StreamReader on concrete scripts
     notes.append(_validate_reader())
-    # the pinned table still describes the classes the scenarios are built from
-    for name in {x for v in VALID.values() for x in v} | set(LEADING_STRING.values()) | set(ONLY_STRING.values()) | {'PrivilegedUsers.Response'}:
-        cls = resolve(name)
-        if int(cls.MESSAGE_ID) != MESSAGES[name]['id']:
-            raise symex.HarnessError(f'pinned code of {name} differs from the code')
+    # scenario classes: a code that differs from the pinned table is not a harness error - the scenario frames are built from the
+    # pinned table, so the harnesses report what the reader does with them
+    for name in sorted({x for v in VALID.values() for x in v} | set(LEADING_STRING.values()) | set(ONLY_STRING.values()) | {'PrivilegedUsers.Response'}):
+        a, b = name.split('.')
+        cls = getattr(getattr(M, a, None), b, None)
+        if cls is None or int(cls.MESSAGE_ID) != MESSAGES[name]['id']:
+            notes.append(f'NOTE: {name} is missing or its code differs from the pinned table (left to the harnesses)')
     in_code = {}
     for grp, base in (('server', M.ServerMessage), ('peer_init', M.PeerInitializationMessage), ('peer', M.PeerMessage),
                       ('distributed', M.DistributedMessage)):
